@@ -31,6 +31,10 @@ pub struct VSpec {
     /// human-readable rendering of the coordinates (informational; strings so that NaN/inf survive JSON)
     #[serde(default)]
     pub approx: Vec<serde_json::Value>,
+    /// raw cell key preset in the public `incident_cell` field of the vertex handed in (a vertex
+    /// value copied out of some triangulation carries one; for the receiver it is a stale handle)
+    #[serde(default, skip_serializing_if = "Option::is_none")]
+    pub incident: Option<u64>,
 }
 
 impl VSpec {
@@ -40,6 +44,7 @@ impl VSpec {
             uuid: Hex128(uuid),
             data,
             approx: coords.iter().map(|c| serde_json::Value::String(format!("{c:?}"))).collect(),
+            incident: None,
         }
     }
     pub fn coords(&self) -> Vec<f64> {
